@@ -24,7 +24,7 @@ RULE = (
     "pair; distinct = (operation, parameters, input hash, seed); non-trivial = the operation returned in both runs"
 )
 ASSUMPTIONS = ["thorough tier repeats the CLI steps as real subprocesses under two PYTHONHASHSEED values", "line-granular injection uses sys.monitoring LINE events on code objects whose file lies under the tree under test"]
-REQUIRED = {"generators_in_equal_state_made_by_different_routes": {"quick": 300, "thorough": 4000}, "training_pairs_user_subclass": {"quick": 8, "thorough": 150}, "pairs_with_positional_arguments": {"quick": 10, "thorough": 200}, "dbal_kernel_pairs_on_the_callers_arrays": {"quick": 100, "thorough": 1000}, "pairs_compared": {"quick": 400, "thorough": 8000}, "global_state_checks": {"quick": 400, "thorough": 8000}, "injected_global_draws": {"quick": 2000, "thorough": 50000}, "training_pairs": {"quick": 16, "thorough": 300}, "training_pairs_same_model": {"quick": 16, "thorough": 300}, "training_with_non_default_switches": {"quick": 6, "thorough": 100}, "vi_training_pairs": {"quick": 40, "thorough": 600}, "reused_scorer_pairs": {"quick": 30, "thorough": 600}, "dbal_pairs_many_samples": {"quick": 12, "thorough": 48}, "second_runs_on_an_object_with_a_past": {"quick": 60, "thorough": 1200}, "grid_model_training_pairs": {"quick": 2, "thorough": 16}, "cli_pairs": {"quick": 24, "thorough": 400}, "cli_subprocess_pairs": {"quick": 2, "thorough": 16}}
+REQUIRED = {"pairs_whose_second_run_has_the_other_verbosity": {"quick": 300, "thorough": 4000}, "generators_in_equal_state_made_by_different_routes": {"quick": 300, "thorough": 4000}, "training_pairs_user_subclass": {"quick": 8, "thorough": 150}, "pairs_with_positional_arguments": {"quick": 10, "thorough": 200}, "dbal_kernel_pairs_on_the_callers_arrays": {"quick": 100, "thorough": 1000}, "pairs_compared": {"quick": 400, "thorough": 8000}, "global_state_checks": {"quick": 400, "thorough": 8000}, "injected_global_draws": {"quick": 2000, "thorough": 50000}, "training_pairs": {"quick": 16, "thorough": 300}, "training_pairs_same_model": {"quick": 16, "thorough": 300}, "training_with_non_default_switches": {"quick": 6, "thorough": 100}, "vi_training_pairs": {"quick": 40, "thorough": 600}, "reused_scorer_pairs": {"quick": 30, "thorough": 600}, "dbal_pairs_many_samples": {"quick": 12, "thorough": 48}, "second_runs_on_an_object_with_a_past": {"quick": 60, "thorough": 1200}, "grid_model_training_pairs": {"quick": 2, "thorough": 16}, "cli_pairs": {"quick": 24, "thorough": 400}, "cli_subprocess_pairs": {"quick": 2, "thorough": 16}}
 N_OPS = {"quick": 640, "thorough": 12800}
 TOOL = 4
 
@@ -83,6 +83,9 @@ class Injector:
         m.free_tool_id(TOOL)
 
 
+_PAIRS = [0]
+
+
 def pair(rec, opname, detail, run, fingerprint, w, inj_every=23, case_key=None, count_as=None, extra_state=None):
     """Run `run(seed)` twice; decide determinism and non-perturbation."""
     # ---- run A: bracketed by global-state snapshots (no injection)
@@ -114,10 +117,22 @@ def pair(rec, opname, detail, run, fingerprint, w, inj_every=23, case_key=None, 
 
         torch.manual_seed(4242)  # another prior state of torch's global generator for run B
         torch.rand(5)
-    # ---- run B: unrelated global draws injected at line granularity
+    # ---- run B: unrelated global draws injected at line granularity; in every second pair also at the OTHER verbosity
+    # (how much is logged is no input of a randomised step: a run under -v and a quiet run with the same seed agree)
+    import logging
+
+    lg_ = logging.getLogger("batchie")
+    lvl0_ = lg_.level
+    _PAIRS[0] += 1
+    if _PAIRS[0] % 2 == 0:
+        lg_.setLevel(logging.CRITICAL if lvl0_ == logging.DEBUG else logging.DEBUG)
+        rec.count("pairs_whose_second_run_has_the_other_verbosity")
     try:
-        with Injector(rec, inj_every, seed=int(b_np[2]) + 1):
-            b = run()
+        try:
+            with Injector(rec, inj_every, seed=int(b_np[2]) + 1):
+                b = run()
+        finally:
+            lg_.setLevel(lvl0_)
         fb = fingerprint(b)
     except Exception as e:
         rec.case(None, nontrivial=False)
